@@ -246,7 +246,7 @@ func runHTTPScenario(sc HScenario) hResult {
 				cls = "drainTimeout"
 			}
 		}
-		rec.add("RET:%s:%s", cls, runner.GetState())
+		rec.addNow(func() string { return fmt.Sprintf("RET:%s:%s", cls, runner.GetState()) })
 		close(runDone)
 	}()
 	for i := 0; i < 4000 && !runner.IsRunning(); i++ {
@@ -316,7 +316,7 @@ func runHTTPScenario(sc HScenario) hResult {
 			rec.add("LC%d", k)
 			before := activeCfg()
 			runner.Reload(context.Background())
-			rec.add("LT%d:%s", k, runner.GetState())
+			rec.addNow(func() string { return fmt.Sprintf("LT%d:%s", k, runner.GetState()) })
 			probe(fmt.Sprint(k))
 			// the address of the configuration that was active before must be free if the address changed
 			after := activeCfg()
